@@ -9,6 +9,18 @@ pub fn generate(impl_group_idx: usize, mut impl_group: ImplGroup) -> Vec<ItemImp
         return Vec::new();
     };
 
+    // NOTE: Dispatch keys are expressed over the params of the group, i.e. of the first impl
+    let impl_group_ids = impl_group
+        .item_impls
+        .iter()
+        .map(|impl_| {
+            ImplGroupId(
+                impl_.trait_.as_ref().map(|trait_| trait_.1.clone()),
+                (*impl_.self_ty).clone(),
+            )
+        })
+        .collect::<Vec<_>>();
+
     if example_impl.trait_.is_none() {
         if let syn::Type::Path(mut self_ty) = (*example_impl.self_ty).clone() {
             gen_inherent_self_ty_args(&mut self_ty, &example_impl.generics);
@@ -37,18 +49,29 @@ pub fn generate(impl_group_idx: usize, mut impl_group: ImplGroup) -> Vec<ItemImp
         }
     }
 
-    let impl_assoc_bounds = impl_group.assoc_bounds.payloads().map(|impl_payloads| {
-        impl_payloads
-            .iter()
-            .enumerate()
-            .map(|(i, payload)| {
-                payload.map(|payload| quote!(#payload)).unwrap_or_else(|| {
-                    let ((param, trait_bound), assoc_type) = assoc_bounds_idents[i];
-                    quote!(<#param as #trait_bound>::#assoc_type)
+    let impl_assoc_bounds = zip(impl_group.assoc_bounds.payloads(), &impl_group_ids).map(
+        |(impl_payloads, impl_group_id)| {
+            // NOTE: The impl's own header can be more specific than the header of the group
+            let substitutions = impl_group_ids[0].is_superset(impl_group_id);
+
+            impl_payloads
+                .iter()
+                .enumerate()
+                .map(|(i, payload)| {
+                    payload.map(|payload| quote!(#payload)).unwrap_or_else(|| {
+                        let (trait_bound_id, assoc_type) = assoc_bounds_idents[i];
+
+                        let (param, trait_bound) = substitutions.as_ref().map_or_else(
+                            || trait_bound_id.clone(),
+                            |substitutions| substitutions.apply(trait_bound_id),
+                        );
+
+                        quote!(<#param as #trait_bound>::#assoc_type)
+                    })
                 })
-            })
-            .collect::<Vec<_>>()
-    });
+                .collect::<Vec<_>>()
+        },
+    );
 
     impl_group
         .item_impls
